@@ -16,6 +16,12 @@ def _msg(m): return re.sub(r"0x[0-9a-fA-F]+", "0x?", m or "")
 def canon(resp):
     return _msg(json.dumps({"data": enc(resp.get("data")), "errors": sorted(json.dumps([e.get("path"), _msg(e.get("message")), sorted([l["line"], l["column"]] for l in e.get("locations") or [])]) for e in resp.get("errors") or [])}, sort_keys=True))
 
+class Note:
+    """query-side directive: records the argument it was given in its own request's context"""
+    async def on_field_execution(self, directive_args, next_resolver, parent, args, ctx, info):
+        if isinstance(ctx, dict) and "notes" in ctx: ctx["notes"].append(directive_args.get("t"))
+        return await next_resolver(parent, args, ctx, info)
+
 def explore(tier, seed):
     rng = random.Random(seed * 17 + 15)
     loop = asyncio.new_event_loop()
@@ -30,13 +36,14 @@ def explore(tier, seed):
                 coord = f"{o['name']}.{f['name']}"
                 if coord not in renv["resolvers"] and rng.random() < 0.3:
                     renv["resolvers"][coord] = {"k": "const", "v": sg.value_for(f["type"], 3, 0.05)}
-        b = loop.run_until_complete(er.build_engine(sg.model(), renv))
-        fresh = loop.run_until_complete(er.build_engine(sg.model(), renv))      # never sees concurrent traffic
+        mdl = sg.model(); mdl["sdl_extra"] = ["directive @note(t: String) on FIELD"]
+        b = loop.run_until_complete(er.build_engine(mdl, renv, directives={"note": Note()}))
+        fresh = loop.run_until_complete(er.build_engine(mdl, renv, directives={"note": Note()}))      # never sees concurrent traffic
         b.scribble = fresh.scribble = si % 2 == 0       # resolvers that modify their own arguments in place
         pool = []
         for _ in range(8):
             dg = DocGen(sg, rng, op_kinds=("query", "mutation") if sg.mutation else ("query",))
-            dg.nested_vars = rng.choice([True, 0.9]); dg.repeat_with_directive = True
+            dg.nested_vars = rng.choice([True, 0.9]); dg.repeat_with_directive = True; dg.note_directive = True
             q, ops, opvars = dg.document(n_ops=rng.choice([1, 2]))
             k = rng.randrange(len(ops))
             for _ in range(3):        # the same document with different variables (shared cached AST)
@@ -46,13 +53,14 @@ def explore(tier, seed):
         def solo(engine_b, req, idx=0):
             hub = MultiHub(1)
             engine_b.gate = hub.gate
-            (res,), _, _ = drive(loop, lambda: [engine_b.engine.execute(req[0], operation_name=req[1], variables=req[2], context={"req": 0, "tag": f"solo{idx}"})], hub.hubs, lambda p: 0)
+            cx = {"req": 0, "tag": f"solo{idx}", "notes": []}
+            (res,), _, _ = drive(loop, lambda: [engine_b.engine.execute(req[0], operation_name=req[1], variables=req[2], context=cx)], hub.hubs, lambda p: 0)
             engine_b.gate = None
-            return res
+            return res + (sorted(map(str, cx["notes"])),)
         solo_fresh = {}
         for i, req in enumerate(pool):
             r = solo(fresh, req)
-            solo_fresh[i] = canon(r[1]) if r[0] == "ok" else f"raised {type(r[1]).__name__}"
+            solo_fresh[i] = (canon(r[1]) if r[0] == "ok" else f"raised {type(r[1]).__name__}") + "|notes=" + json.dumps(r[2])
         for fi in range(nfam):
             if time.time() - t0 > (110 if tier == "quick" else 1500): break
             n = rng.randint(2, 5)
@@ -62,7 +70,8 @@ def explore(tier, seed):
             b.calls.clear()
             rr = random.Random(rng.getrandbits(32))
             try:
-                results, trace, left = drive(loop, lambda: [b.engine.execute(pool[i][0], operation_name=pool[i][1], variables=pool[i][2], context={"req": j, "tag": f"r{j}"}) for j, i in enumerate(idxs)],
+                ctxs = [{"req": j, "tag": f"r{j}", "notes": []} for j in range(n)]
+                results, trace, left = drive(loop, lambda: [b.engine.execute(pool[i][0], operation_name=pool[i][1], variables=pool[i][2], context=ctxs[j]) for j, i in enumerate(idxs)],
                                              hub.hubs, lambda p: rr.randrange(len(p)))
             except Exception as e:
                 stats["problems"].append({"what": [f"driver: {e}"], "family": [pool[i][0] for i in idxs]}); b.gate = None; continue
@@ -74,10 +83,10 @@ def explore(tier, seed):
             pr = []
             diffs = []
             for j, i in enumerate(idxs):
-                got = canon(results[j][1]) if results[j][0] == "ok" else f"raised {type(results[j][1]).__name__}"
+                got = (canon(results[j][1]) if results[j][0] == "ok" else f"raised {type(results[j][1]).__name__}") + "|notes=" + json.dumps(sorted(map(str, ctxs[j]["notes"])))
                 if got != solo_fresh[i]:
                     pr.append(f"request #{j} answered differently in flight with {n - 1} other request(s) than alone")
-                    diffs.append({"request": j, "alone": json.loads(solo_fresh[i]) if solo_fresh[i].startswith("{") else solo_fresh[i], "in_flight": json.loads(got) if got.startswith("{") else got})
+                    diffs.append({"request": j, "alone": solo_fresh[i], "in_flight": got})
             # contexts must not leak: every resolver call carries the context of its own request
             for call in b.calls:
                 ctx = call.get("ctx")
@@ -86,7 +95,7 @@ def explore(tier, seed):
             # afterwards the engine behaves as a fresh one
             probe = rng.randrange(len(pool))
             r2 = solo(b, pool[probe], 1)
-            got2 = canon(r2[1]) if r2[0] == "ok" else f"raised {type(r2[1]).__name__}"
+            got2 = (canon(r2[1]) if r2[0] == "ok" else f"raised {type(r2[1]).__name__}") + "|notes=" + json.dumps(r2[2])
             if got2 != solo_fresh[probe]: pr.append("a request issued afterwards behaves differently from the same request on a fresh engine")
             if pr:
                 stats["problems"].append({"what": pr[:4], "diffs": diffs[:2], "family": [{"query": pool[i][0], "operation_name": pool[i][1], "variables": pool[i][2]} for i in idxs], "sdl": print_sdl(b.model), "env": renv})
